@@ -361,3 +361,94 @@ pub fn synth_any(rng: &mut Rng, theme: usize) -> Model {
         }
     }
 }
+
+
+// ------------------------------------------------------------------ slider lattice
+// Boot states that walk the slider look-up space systematically: one (slider square, subset of the
+// relevant blocker squares) pair per boot, so that every table entry of either back end is consulted
+// by move generation once the run count exceeds LATTICE_ENTRIES. This is enumeration of boot states,
+// not simulation, and is labelled so (DESIGN.md §4.5).
+
+fn relevant(s: u8, rook: bool) -> Vec<u8> {
+    let dirs: [(i8, i8); 4] = if rook { [(0, 1), (1, 0), (0, -1), (-1, 0)] } else { [(1, 1), (1, -1), (-1, -1), (-1, 1)] };
+    let mut v = vec![];
+    for (df, dr) in dirs {
+        let (mut f, mut r) = (file_of(s) + df, rank_of(s) + dr);
+        // every square of the ray except the last one before the rim ends it
+        while let (Some(cur), Some(_next)) = (mk(f, r), mk(f + df, r + dr)) {
+            v.push(cur);
+            f += df;
+            r += dr;
+        }
+    }
+    v.sort();
+    v
+}
+
+pub fn lattice_entries() -> u64 {
+    (0..64u8).map(|s| (1u64 << relevant(s, true).len()) + (1u64 << relevant(s, false).len())).sum()
+}
+
+/// The position for lattice entry `e` (None when no sound arrangement was found in a few tries).
+pub fn lattice(e: u64, rng: &mut Rng) -> Option<Model> {
+    let mut rest = e % lattice_entries();
+    let mut pick = None;
+    'outer: for rook in [true, false] {
+        for s in 0..64u8 {
+            let n = 1u64 << relevant(s, rook).len();
+            if rest < n {
+                pick = Some((rook, s, rest));
+                break 'outer;
+            }
+            rest -= n;
+        }
+    }
+    let (rook, s, subset) = pick?;
+    let mask = relevant(s, rook);
+    let blockers: Vec<u8> = mask.iter().enumerate().filter(|(i, _)| subset >> i & 1 == 1).map(|(_, &q)| q).collect();
+    for _ in 0..24 {
+        let mut m = Model::empty();
+        m.stm = rng.below(2) as u8;
+        let us = m.stm;
+        let kind = if rng.chance(1, 3) { QUEEN } else if rook { ROOK } else { BISHOP };
+        m.sq[s as usize] = Some((kind, us));
+        let mut ok = true;
+        for &b in &blockers {
+            let c = if rng.chance(1, 2) { us } else { us ^ 1 };
+            let mut k = [KNIGHT, BISHOP, ROOK, PAWN, PAWN, QUEEN][rng.below(6) as usize];
+            if k == PAWN && (rank_of(b) == 0 || rank_of(b) == 7 || m.count(PAWN, c) >= 8) {
+                k = KNIGHT;
+            }
+            if m.count_side(c) >= 15 {
+                ok = false;
+                break;
+            }
+            m.sq[b as usize] = Some((k, c));
+        }
+        if !ok {
+            continue;
+        }
+        // kings off the slider's lines, not on relevant squares
+        let off_lines = |q: u8| {
+            let (df, dr) = ((file_of(q) - file_of(s)).abs(), (rank_of(q) - rank_of(s)).abs());
+            df != 0 && dr != 0 && df != dr
+        };
+        let free: Vec<u8> = (0..64u8).filter(|&q| m.sq[q as usize].is_none() && off_lines(q)).collect();
+        if free.len() < 2 {
+            continue;
+        }
+        let wk = *rng.pick(&free);
+        let bk = *rng.pick(&free);
+        if wk == bk {
+            continue;
+        }
+        m.sq[wk as usize] = Some((KING, WHITE));
+        m.sq[bk as usize] = Some((KING, BLACK));
+        m.half = rng.below(50) as u8;
+        m.full = 1 + rng.below(80) as u16;
+        if m.unsound().is_none() && !m.in_check(us) {
+            return Some(m);
+        }
+    }
+    None
+}
